@@ -42,7 +42,7 @@ type Case struct {
 // independent rule edits that land in different places of a document
 var independent = []string{"dupOperationID", "pathParamNotInTemplate", "dupParamInline", "twoBodyParams", "bodyAndForm", "headerArrayNoItems", "schemaArrayNoItems",
 	"requiredUndefined", "requiredUndefined", "dupInheritedProperty", "invalidPatternParam", "invalidPatternHeader", "invalidPatternSchema", "invalidPatternItems", "emptyPlaceholder", "overlappingPaths", "overlappingPaths3", "overlappingPaths3",
-	"placeholderRepeatedApart", "circularAncestry", "unresolvableDefinitionRef"}
+	"placeholderRepeatedApart", "circularAncestry", "unresolvableDefinitionRef", "unresolvableFileRefs", "unresolvableFileRefs"}
 
 func genCase(t *rapid.T) Case {
 	var c Case
@@ -118,13 +118,19 @@ func normalise(msgs []string) []string {
 	return out
 }
 
-var reFirstFound = regexp.MustCompile(`^(some references could not be resolved in spec\. First found: ).*$`)
+// two message classes quote whichever unresolvable reference the expander of go-openapi/spec met first
+var reFirstFound = regexp.MustCompile(`(?s)^(some references could not be resolved in spec\. First found: |could not resolve reference in .* to \$ref [^:]*: ).*$`)
 
 // eraseFirstFound erases which unresolvable reference the expander reports as "first found".
 func eraseFirstFound(msgs []string) []string {
 	var out []string
+	seen := map[string]bool{}
 	for _, m := range msgs {
-		out = append(out, reFirstFound.ReplaceAllString(m, "$1<one of the unresolvable references>"))
+		e := reFirstFound.ReplaceAllString(m, "$1<one of the unresolvable references>")
+		if !seen[e] {
+			seen[e] = true
+			out = append(out, e)
+		}
 	}
 	sort.Strings(out)
 	return out
